@@ -569,7 +569,7 @@ theorem built_writeView {cfg : Cfg} {s s1 : State} {r : Rep} {v : List UInt8} (b
     have hdl := window_write_length x.data _ off len hrng hfl
     have : writeView s1 (.heap o pb off len) f =
         (setI s1 o { x with data := x.data.take off ++ f ((x.data.drop off).take len) ++ x.data.drop (off + len) },
-          .heap o pb off len, [Event.write x.buf off (off + len)]) := by
+          .heap o pb off len, if len > 0 then [Event.write x.buf off (off + len)] else []) := by
       simp [writeView, hx]
     rw [this]
     simp only
